@@ -98,6 +98,27 @@ func defsPart(p *Pkg, relType, conventional string) ([]byte, bool) {
 	return data, ok
 }
 
+// defsParse is ParseXML with a small cache keyed by the bytes: most saves rewrite identical styles,
+// numbering, notes and header/footer parts. The trees are only read.
+type defsParsed struct {
+	root *Node
+	err  error
+}
+
+var defsParseCache = map[string]defsParsed{}
+
+func defsParse(data []byte) (*Node, error) {
+	if c, ok := defsParseCache[string(data)]; ok {
+		return c.root, c.err
+	}
+	root, err := ParseXML(data)
+	if len(defsParseCache) > 512 {
+		defsParseCache = map[string]defsParsed{}
+	}
+	defsParseCache[string(data)] = defsParsed{root, err}
+	return root, err
+}
+
 // defsProjectPkg turns saved bytes into the abstract package of Defs.tla.
 func defsProjectPkg(b []byte) map[string]interface{} {
 	out := defsEmptyPkg()
@@ -122,7 +143,7 @@ func defsProjectPkg(b []byte) map[string]interface{} {
 	for _, r := range p.Rels[RelsPartFor(main)] {
 		if (r.Type == relHeader || r.Type == relFooter) && r.Mode != "External" {
 			if data, ok := p.Parts[ResolveTarget(main, r.Target)]; ok {
-				hr, err := ParseXML(data)
+				hr, err := defsParse(data)
 				if err != nil {
 					out["ok"] = "xml:header-footer"
 					return out
@@ -160,7 +181,7 @@ func defsProjectPkg(b []byte) map[string]interface{} {
 	// styles part
 	styles, sver := []string{}, []map[string]interface{}{}
 	if data, ok := defsPart(p, relStyles, "word/styles.xml"); ok {
-		sr, err := ParseXML(data)
+		sr, err := defsParse(data)
 		if err != nil {
 			out["ok"] = "xml:styles"
 			return out
@@ -184,7 +205,7 @@ func defsProjectPkg(b []byte) map[string]interface{} {
 	// numbering part
 	nums, abss := []map[string]interface{}{}, []int{}
 	if data, ok := defsPart(p, defsRelNumbering, "word/numbering.xml"); ok {
-		nr, err := ParseXML(data)
+		nr, err := defsParse(data)
 		if err != nil {
 			out["ok"] = "xml:numbering"
 			return out
@@ -205,7 +226,7 @@ func defsProjectPkg(b []byte) map[string]interface{} {
 		{"en", defsRelEndnotes, "word/endnotes.xml", "endnote"},
 	} {
 		if data, ok := defsPart(p, k.rel, k.conv); ok {
-			nr, err := ParseXML(data)
+			nr, err := defsParse(data)
 			if err != nil {
 				out["ok"] = "xml:" + k.el + "s"
 				return out
